@@ -236,6 +236,8 @@ class Scheduler:
         self.cur: Task | None = None
         self.deadlock_info = None
         self.line_mode = False
+        self.capture_dump = False
+        self.abort_dump = None
         self.yield_on_release = False  # a release is followed by the releaser's next yield point anyway
         if cf_thread is not None:
             # module-level lock of the cloned executor module: fresh per run (a crashed run may have died holding it)
@@ -272,11 +274,11 @@ class Scheduler:
             finally:
                 self._finish(t)
 
-        t.state = "runnable"
         with _internal:
             th = _real.Thread(target=boot, name=f"vf-{t.id}-{name}", daemon=True)
             t.thread = th
             th.start()
+        t.state = "runnable"
         return t
 
     def run(self, fn, *, watchdog_s: float = 120.0):
@@ -292,10 +294,19 @@ class Scheduler:
             except BaseException as e:  # noqa: BLE001
                 self.root_exc = e
 
-        self.root = self.spawn(root, "root", "root")
-        self.cur = self.root
-        self.root.sem.release()
-        if not self._done.wait(watchdog_s):
+        import gc
+
+        gc_was = gc.isenabled()
+        gc.disable()  # no GC-triggered weakref callbacks / finalizers at arbitrary points of a run
+        try:
+            self.root = self.spawn(root, "root", "root")
+            self.cur = self.root
+            self.root.sem.release()
+            ok = self._done.wait(watchdog_s)
+        finally:
+            if gc_was:
+                gc.enable()
+        if not ok:
             dump = self.dump()
             raise HarnessError("watchdog: scheduler made no progress in real time\n" + dump)
         if self.outcome is None:
@@ -362,6 +373,8 @@ class Scheduler:
 
     def _abort(self, reason: str) -> None:
         if not self.aborting:
+            if reason in ("deadlock", "time_cap") and self.capture_dump:
+                self.abort_dump = self.dump()
             self.aborting = True
             self.abort_reason = reason
             if self.outcome is None:
@@ -469,7 +482,9 @@ _BLOCKING_KINDS = {"api", "lock.acquire", "queue.get", "sem.acquire", "cond.wait
 
 def _sched_or_none():
     t = getattr(_tl, "task", None)
-    return t.sched if t is not None else None
+    if t is None or getattr(_tl, "internal", 0):
+        return None
+    return t.sched
 
 
 class MLock:
